@@ -2491,3 +2491,46 @@ Example timely_builtin_hyp_met :
 Proof.
   vm_compute. repeat split; auto. exists 0. split; [reflexivity|left; reflexivity].
 Qed.
+
+(* ------------------------------------------------------------------ odd sys.modules entries *)
+Lemma odd_entry_no_glue w o : obj_of w o = ONoDict -> glue_of w o = None.
+Proof. unfold glue_of. intros ->. reflexivity. Qed.
+
+(* the visit of an odd entry is the identity on module-provided glue: nothing is consumed, no
+   module function is selected; what was pending as built-in for that name is selected *)
+Lemma odd_entry_visit c w t nm todo k s o :
+  c_pop c = true -> obj_of w o = ONoDict -> m_get (mods s) nm = Some o ->
+  let s' := visit c w t nm todo k s in
+  popped s' = popped s /\ mods s' = mods s
+  /\ thr s' t = match m_get (pend s) nm with
+                | Some f => PCall nm None (Some f) (Some o) todo k
+                | None => PScan todo k
+                end.
+Proof.
+  intros Hp OD MG. destruct (visit_spec c w t nm todo k s Hp) as (PO & _ & _ & T & MO & _).
+  assert (V : visit_mf w s nm = None).
+  { unfold visit_mf. rewrite MG, (odd_entry_no_glue w o OD). reflexivity. }
+  cbv zeta. rewrite PO, T, V, upd_same. unfold visit_pc. rewrite V, MG.
+  split; [reflexivity|split; [exact MO|]]. destruct (m_get (pend s) nm); reflexivity.
+Qed.
+
+(* ... hence an odd entry with a pending built-in meets the hypothesis of [timely_builtin] *)
+Lemma odd_entry_pendingB w s n o f :
+  obj_of w o = ONoDict -> m_get (mods s) n = Some o -> m_get (pend s) n = Some f -> pendingB w s n f.
+Proof.
+  intros OD MG PD. split; [exists o; split; [exact MG|left; apply odd_entry_no_glue; exact OD]|exact PD].
+Qed.
+
+(* a scan over [module; odd+built-in; odd; module-with-raising-glue; odd+raising built-in; module] *)
+Definition odd_world := mkworld 1
+  [OMod (Some (mkfn BOk [])); ONoDict; ONoDict; OMod (Some (mkfn BRaise [])); ONoDict; OMod (Some (mkfn BOk []))]
+  [mkfn BOk []; mkfn BRaise []].
+Definition odd_hist :=
+  [CEnv (EReg 1); CEnv (EReg 4); CEnv (EIR (IIns 0 0)); CEnv (EIR (IIns 1 1)); CEnv (EIR (IIns 2 2));
+   CEnv (EIR (IIns 3 3)); CEnv (EIR (IIns 4 4)); CEnv (EIR (IIns 5 5)); CFull 0].
+Example odd_entries_are_skipped :
+  let r := crun src_cfg odd_world odd_hist (init odd_world true) in
+  map erase (rev (log (fst r))) =
+    [OCallM 0 0; OCallB 0 1; OCallM 3 3; OWarn true 3; OCallB 1 4; OWarn false 4; OCallM 5 5; ORet 0 true]
+  /\ pend (fst r) = [] /\ cache (fst r) = 7.
+Proof. vm_compute. repeat split. Qed.
